@@ -13,8 +13,8 @@ impl ::vrt::HasName for App { fn name(&self) -> &str { self.name } }
 DEFAULT_PROFILE = dict(
     deps_kinds=["generic_ref"] * 5 + ["impl_ref"] * 3 + ["generic_val", "impl_val", "concrete_ref", "concrete_val", "no_deps", "no_deps"],
     max_arity=6,
-    forms=["plain"] * 8 + ["mut", "ref", "raw", "wild", "destr", "destr"],
-    types=["i32", "i32", "i32", "u8", "bool", "str", "String", "tup", "N", "N2", "S", "opt", "arr", "refi", "mutref"],
+    forms=["plain"] * 8 + ["mut", "ref", "refmut", "raw", "wild", "destr", "destr"],
+    types=["i32", "i32", "i32", "u8", "bool", "str", "String", "tup", "N", "N2", "S", "opt", "arr", "refi", "mutref", "into", "dynref", "slice", "nest"],
     rets=["owned"] * 4 + ["unit", "borrow_deps", "borrow_arg", "generic"],
     p_async=0.3, p_unsafe=0.08, p_extern=0.05, p_generic_param=0.2, p_lifetimes=0.2, p_const=0.08,
     p_helpers=0.5, vis=["", "", "pub", "pub(crate)", "pub(super)"],
@@ -97,8 +97,10 @@ def random_fn(rng, name, profile, helpers=(), in_module=False, forbid_names=()):
             if form == "raw":
                 names = [rng.choice(["match", "type", "loop"]) if rng.random() < 0.5 and not ({"match", "type", "loop"} & taken) else names[0]]
                 taken |= set(names)
-            if form == "ref" and tkey == "mutref":
+            if form in ("ref", "refmut") and tkey == "mutref":
                 form = "plain"
+            if form in ("ref", "refmut") and tkey == "into":
+                form = "mut"   # a `ref` binding of an anonymous `impl .. + Send` type held across an await would need `Sync`
             p = Param(ty, form, names)
         f.params.append(p)
         last_ty = tkey
@@ -157,7 +159,7 @@ def random_fn(rng, name, profile, helpers=(), in_module=False, forbid_names=()):
             f.ret_lifetime = "'a"
     if ret == "borrow_deps":
         f.bounds.append("::vrt::HasName") if f.deps_kind != "concrete_ref" else None
-        other_refs = any((p.ty.key in ("str", "refi", "mutref")) for p in f.params)
+        other_refs = any((p.ty.key in ("str", "refi", "mutref", "dynref", "slice")) for p in f.params)
         if other_refs or rng.random() < 0.5:
             f.lifetimes.insert(0, ("'a", []))
             f.deps_lifetime = "'a"
